@@ -536,4 +536,8 @@ theorem lexAllRaw_line (src : Bytes) (pre : List Tok) (t : Tok) (post : List Tok
     (h : (lexAllRaw src).1 = pre ++ t :: post) : t.line = 1 + (pre.map (lineAdvance genTables)).sum :=
   lexRawFuel_line genTables _ src startLoc pre t post h
 
+/-- non-vacuity: `in x\n#\n$` is IN, ID, then INVALID on line 3 (a comment and a newline before it) -/
+example : (lexAll [0x69, 0x6E, 0x20, 0x78, 0x0A, 0x23, 0x0A, 0x24]).map (fun t => (t.id, t.line, t.col)) =
+    [(57354, 1, 1), (57378, 1, 4), (57348, 3, 1)] := by decide
+
 end Martian.Tokenizer
